@@ -92,6 +92,14 @@ CLAIMED["C02"] = dict(
          "verify (real cryptography), BCA/FCF/Vx classes, custom TrustZone in CRC-manifest classes.",
     ref="DESIGN.md section 3 C02")
 
+CLAIMED["C17"] = dict(
+    technique="symbolic execution of the real constructors under an RNG stub whose draws are solver variables tagged with "
+              "the drawing phase (import / construction 1 / construction 2) + z3 QF_BV: non-determination by earlier draws "
+              "(satisfiability query), equality to an own-phase draw up to documented masks (validity query)",
+    note="Out of the claim: quality of secrets.token_bytes; histories longer than two constructions; 'across interpreter "
+         "restarts' is decided as independence from import-phase draws.",
+    ref="DESIGN.md section 3 C17")
+
 NOT_APPLICABLE = {
     "C18": "quantifies over OS-level crash points of a pickle file and over process schedules around a FileLock; the "
            "deciding code is pickle (C) / the file system / the scheduler - no SPSDK arithmetic or layout to encode; "
